@@ -6,6 +6,7 @@ toolchain go1.23.5
 
 require (
 	github.com/lni/dragonboat/v4 v4.0.0
+	github.com/lni/goutils v1.4.0
 	github.com/lni/vfs v0.2.1-0.20220616104132-8852fd867376
 )
 
@@ -34,7 +35,6 @@ require (
 	github.com/klauspost/compress v1.11.13 // indirect
 	github.com/kr/pretty v0.3.0 // indirect
 	github.com/kr/text v0.2.0 // indirect
-	github.com/lni/goutils v1.4.0 // indirect
 	github.com/miekg/dns v1.1.26 // indirect
 	github.com/pierrec/lz4/v4 v4.1.14 // indirect
 	github.com/pkg/errors v0.9.1 // indirect
